@@ -25,6 +25,9 @@ func H_C01_rt(idx, pat, depth, variant int) {
 		return
 	}
 	m := len(condFields(pt.Elem()))
+	if pat >= 1000 { // 1000+q: the q-th pairwise pattern, whatever m is
+		pat = pairwisePat(m, pat-1000)
+	}
 	if pat >= numPatterns(m) {
 		verifrt.Assert(true, "pattern-past-last")
 		return
